@@ -268,8 +268,9 @@ class _Content:
 
 
 class _Resp:
-    def __init__(self, net, url, maker, is_rest):
+    def __init__(self, net, url, maker, is_rest, methods=()):
         self.net, self.sim, self.url, self.maker, self.is_rest = net, net.sim, url, maker, is_rest
+        self.methods = methods
         self.lat = net.latency
         self.headers = {}
         self.reason = 'OK'
@@ -287,7 +288,8 @@ class _Resp:
             if fault == 'timeout':
                 await asyncio.sleep(sim.ch.delay(1.0, 30.0))
                 raise asyncio.TimeoutError()
-            await asyncio.sleep(sim.ch.delay(self.lat[0], self.lat[1]))
+            extra = net.take_slow(self.methods) if net.slow else 0.0
+            await asyncio.sleep(sim.ch.delay(self.lat[0], self.lat[1]) + extra)
             if fault == 'disconnect':
                 raise aiohttp.ServerDisconnectedError()
             if fault == 'reset':
@@ -341,6 +343,28 @@ class DaemonNet:
         self.requests = 0
         self.inflight = 0
         self.served = []            # (url, kind) of successfully served requests, for C18
+        # fault placement inside operations: one-shot callbacks run right after a given RPC method has been
+        # answered (the world changes between two calls of one server operation), and one-shot extra
+        # latencies for the next request carrying a given method (a slow round trip)
+        self.rpc_triggers = []      # dicts: method, skip, fn
+        self.slow = []              # [method, extra seconds]
+
+    def after_rpc(self, method):
+        for t in list(self.rpc_triggers):
+            if t['method'] == method:
+                if t['skip'] > 0:
+                    t['skip'] -= 1
+                else:
+                    self.rpc_triggers.remove(t)
+                    t['fn']()
+
+    def take_slow(self, methods):
+        for e in list(self.slow):
+            if e[0] in methods:
+                self.slow.remove(e)
+                self.sim.stats['slow_rpc'] += 1
+                return e[1]
+        return 0.0
 
     def daemon_for(self, url):
         for base, d in self.daemons.items():
@@ -359,14 +383,22 @@ class DaemonNet:
             def post(self, url, data=None, **kw):
                 base, daemon = net.daemon_for(url)
 
-                def maker(fault):
-                    req = json.loads(data)
+                req = json.loads(data)
+                methods = [r.get('method') for r in (req if isinstance(req, list) else [req])
+                           if isinstance(r, dict)]
 
+                def rpc(r):
+                    out = daemon.rpc(r.get('method'), r.get('params', []))
+                    if net.rpc_triggers:
+                        net.after_rpc(r.get('method'))
+                    return out
+
+                def maker(fault):
                     def one(r):
                         if fault == 'warmup':
                             return {'result': None, 'id': r.get('id'),
                                     'error': {'code': -28, 'message': 'Loading block index...'}}
-                        res, err = daemon.rpc(r.get('method'), r.get('params', []))
+                        res, err = rpc(r)
                         return {'result': res, 'error': err, 'id': r.get('id')}
                     if isinstance(req, list):
                         if fault == 'warmup':
@@ -377,7 +409,7 @@ class DaemonNet:
                                 if i == k:
                                     out.append(one(r))
                                 else:
-                                    res, err = daemon.rpc(r.get('method'), r.get('params', []))
+                                    res, err = rpc(r)
                                     out.append({'result': res, 'error': err, 'id': r.get('id')})
                             body = out
                         else:
@@ -386,7 +418,7 @@ class DaemonNet:
                         body = one(req)
                     net.served.append((base, 'rpc', net.sim.steps))
                     return 'application/json', body
-                return _Resp(net, url, maker, False)
+                return _Resp(net, url, maker, False, methods)
 
             def get(self, url, **kw):
                 base, daemon = net.daemon_for(url)
@@ -397,8 +429,10 @@ class DaemonNet:
                     if blk is None:
                         return 'text/plain', 'Block not found'
                     net.served.append((base, 'rest', net.sim.steps))
+                    if net.rpc_triggers:
+                        net.after_rpc('rest')
                     return 'application/octet-stream', blk.raw
-                return _Resp(net, url, maker, True)
+                return _Resp(net, url, maker, True, ['rest'])
         return ClientSession
 
     def shim(self):
